@@ -412,8 +412,9 @@ func genEntryPointFragmentation(ctx *Ctx, r *prng.R, emit func(Case)) {
 // C14
 
 type faultWriter struct {
-	failAt int // index of the failing Write (-1: never)
-	sticky bool
+	failAt  int // index of the failing Write (-1: never)
+	sticky  bool
+	partial bool // the failing Write takes half of the slice before it fails: (0 < n < len, err), legal for an io.Writer
 	n      int
 	data   bytes.Buffer
 	failed bool
@@ -424,6 +425,10 @@ func (w *faultWriter) Write(p []byte) (int, error) {
 	w.n++
 	if k == w.failAt || (w.sticky && w.failAt >= 0 && k > w.failAt) {
 		w.failed = true
+		if w.partial && len(p) > 1 {
+			w.data.Write(p[:len(p)/2])
+			return len(p) / 2, script.ErrIO
+		}
 		return 0, script.ErrIO
 	}
 	w.data.Write(p)
@@ -473,8 +478,9 @@ func genFaults(ctx *Ctx, emit func(Case)) {
 		}
 		pt := r.Bytes(ptLen)
 		closeOK := false
+		partial := false
 		run := func(failAt int, sticky bool) (anyErr bool, w *faultWriter) {
-			w = &faultWriter{failAt: failAt, sticky: sticky}
+			w = &faultWriter{failAt: failAt, sticky: sticky, partial: partial}
 			closeOK = false
 			s, err := mk(w)
 			if err != nil {
@@ -506,9 +512,13 @@ func genFaults(ctx *Ctx, emit func(Case)) {
 			step = total/ctx.N(150, 1500) + 1
 		}
 		for k := 0; k < total; k += step {
-			for _, sticky := range []bool{false, true} {
+			for variant := 0; variant < 3; variant++ {
+				// transient / sticky faults taking nothing, and a transient fault that takes half of the slice first
+				sticky := variant == 1
+				partial = variant == 2
 				k, sticky := k, sticky
 				anyErr, w := run(k, sticky)
+				partial = false
 				closedOK := closeOK
 				line := fmt.Sprintf("noop fault.write %s k=%d sticky=%v", name, k, sticky)
 				emit(Case{Stream: "fault.write." + name, Line: line, GoOut: "bad-op", Branch: fmt.Sprintf("k%%8=%d", k%8), Trivial: false,
